@@ -176,6 +176,10 @@ func (e *Engine) evalExpr(env *Env, x *Expr) Val {
 		if t.S == SInt {
 			return mk(SInt, "(- "+t.T+")")
 		}
+		if t.S == "NumLit" {
+			n, _ := strconv.ParseUint(t.T, 10, 64)
+			return mkBV(64, bvLit(uint64(-int64(n)), 64), true)
+		}
 		return &Term{S: t.S, T: "(bvneg " + t.T + ")", Signed: t.Signed}
 	case "binop":
 		return e.evalBinop(env, x)
@@ -487,11 +491,27 @@ func (e *Engine) pureMethod(env *Env, recv Val, name string, args []Val) Val {
 			}
 		}
 	case *Term:
-		if r.GoT != nil {
-			// opaque value with a Go type: interface-method contract (pure ones) or uninterpreted getter
-			if fc := e.W.IfaceC[ifaceKeyOf(r.GoT, name)]; fc != nil && fc.Flags["pure"] {
-				return e.pureIfaceContract(env, fc, r, args, name)
+		if r.S == "Obj" {
+			// a declared getter of some interface (flags getter): the uninterpreted observer get_<Name>
+			var hit string
+			for _, k := range sortedKeys(e.W.IfaceC) {
+				if strings.HasSuffix(k, "."+name) && e.W.IfaceC[k].Flags["getter"] {
+					if r.GoT != nil && ifaceKeyOf(r.GoT, name) != k && hit != "" {
+						continue
+					}
+					hit = k
+					if r.GoT != nil && ifaceKeyOf(r.GoT, name) == k {
+						break
+					}
+				}
 			}
+			if hit != "" {
+				if rt := e.ifaceMethodResults("iface:" + hit); rt != nil && rt.Len() == 1 {
+					return e.ufApply(env.st, "get_"+name, rt.At(0).Type(), append([]Val{r}, args...))
+				}
+			}
+		}
+		if r.GoT != nil {
 			return e.opaqueGetter(env.st, r, name, args)
 		}
 	}
@@ -754,6 +774,19 @@ func (e *Engine) coerceTo(env *Env, v Val, s Sort) *Term {
 		case SBytes:
 			return mk(SBytes, "(mkB true str_empty)")
 		}
+	case *PtrV:
+		if x.Opaque != nil && x.Opaque.S == "Obj" && s == "Obj" {
+			return x.Opaque
+		}
+	case *IfaceV:
+		if x.Dyn != nil {
+			if t, ok := x.V.(*Term); ok && t.S == s {
+				return t
+			}
+			if p, ok := x.V.(*PtrV); ok && p.Opaque != nil && p.Opaque.S == "Obj" && s == "Obj" {
+				return p.Opaque
+			}
+		}
 	case *SliceV:
 		if isByteElem(x.ElemT) {
 			bt := e.toBytesTerm(env.st, x)
@@ -1014,6 +1047,30 @@ func (e *Engine) evalCall(env *Env, x *Expr) Val {
 		evalArgs()
 		o := term(0, SOpt).T
 		return mkBV(64, fmt.Sprintf("(ite (or ((_ is none) %s) (= (slen (val %s)) #x0000000000000000)) #x0000000000000000 (unbe64 (val %s)))", o, o, o), false)
+	case "seqlen":
+		evalArgs()
+		return e.seqLen(env.st, term(0, "Obj"))
+	case "seqstr":
+		evalArgs()
+		e.C.DeclareFun("seq_str", []Sort{"Obj", BV(64)}, SStr)
+		return mk(SStr, fmt.Sprintf("(seq_str %s %s)", term(0, "Obj").T, term(1, BV(64)).T))
+	case "pbdec_obj", "pbdec_str":
+		// pbdec_obj(T, i, bytes): field i of the message type named T decoded from bytes (A-PROTO)
+		if len(x.Args) != 3 || x.Args[1].Op != "num" {
+			unsupported("%s(TypeName, index, bytes)", x.Name)
+		}
+		pbT, err := e.W.LookupType(env.pkg, x.Args[0].String())
+		if err != nil {
+			unsupported("%v", err)
+		}
+		b := e.coerceTo(env, e.evalExpr(env, x.Args[2]), SStr)
+		s := Sort("Obj")
+		if x.Name == "pbdec_str" {
+			s = SStr
+		}
+		d := fmt.Sprintf("pbdec_%s_%s", typeTag(pbT), x.Args[1].Name)
+		e.C.DeclareFun(d, []Sort{SStr}, s)
+		return &Term{S: s, T: fmt.Sprintf("(%s %s)", d, b.T)}
 	case "optstr":
 		// string(store.Get(k)): "" when absent
 		evalArgs()
@@ -1099,6 +1156,43 @@ func (e *Engine) evalCall(env *Env, x *Expr) Val {
 				return &Term{S: kc.Args[n], T: fmt.Sprintf("(%s %s)", x.Name, term(0, SKey).T)}
 			}
 		}
+	}
+	if x.Name == "as" || x.Name == "isa" {
+		// as(x, T): the view of opaque x as message type T; isa(x, T): the uninterpreted type test
+		if len(x.Args) != 2 {
+			unsupported("%s(value, Type)", x.Name)
+		}
+		tn := x.Args[1].String()
+		T, err := e.W.LookupType(env.pkg, strings.TrimPrefix(tn, "*"))
+		if err != nil {
+			unsupported("%v", err)
+		}
+		o := e.coerceTo(env, e.evalExpr(env, x.Args[0]), "Obj")
+		if x.Name == "isa" {
+			return mkBool(e.isaTerm(o, T))
+		}
+		return e.structView(env.st, o, T)
+	}
+	if x.Name == "dur" {
+		evalArgs()
+		e.C.DeclareFun("dur_int", []Sort{BV(64)}, SInt)
+		return mk(SInt, "(dur_int "+term(0, BV(64)).T+")")
+	}
+	if x.Name == "unix" || x.Name == "nsec" {
+		evalArgs()
+		f := map[string]string{"unix": "time_unix", "nsec": "time_nsec"}[x.Name]
+		e.C.DeclareFun(f, []Sort{SInt}, BV(64))
+		return mkBV(64, "("+f+" "+term(0, SInt).T+")", true)
+	}
+	if x.Name == "inClient" {
+		// inClient(k, c): k is a key below client c's prefix store (any declared client-store key family)
+		evalArgs()
+		k, c := term(0, SKey), term(1, SStr)
+		var parts []string
+		for _, ctor := range e.subCtors {
+			parts = append(parts, fmt.Sprintf("(and ((_ is %s) %s) (= (%s_0 %s) %s))", ctor, k.T, ctor, k.T, c.T))
+		}
+		return mkBool(smtOr(parts...))
 	}
 	if x.Name == "clientOf" {
 		evalArgs()
